@@ -290,3 +290,70 @@ Proof.
   exact (stream_gen fam Hwf arr [] [] (Inv_init fam) Hall Hdis k a Hk parts Hp).
 Qed.
 
+
+(* ---- the store after a stream; a reference is free again once its message is complete ---- *)
+
+Fixpoint final_store (st : dstore) (arrivals : list arrival) : dstore :=
+  match arrivals with
+  | [] => st
+  | (ref, seq, total, t) :: rest =>
+    match put_delivery_segmented st 0%Q ref seq total t with
+    | Ok (st', _) => final_store st' rest
+    | Err _ => final_store st rest
+    end
+  end.
+
+Lemma reassemble_app st A : forall B,
+  reassemble st (A ++ B) = reassemble st A ++ reassemble (final_store st A) B.
+Proof.
+  revert st. induction A as [|[[[r s] tot] t] A' IH]; intros st B; [reflexivity|].
+  cbn [app reassemble final_store].
+  destruct (put_delivery_segmented st 0%Q r s tot t) as [[st' o]|e]; cbn [app]; rewrite IH; reflexivity.
+Qed.
+
+Lemma final_Inv fam : wf_family fam -> forall Q P st,
+  Inv fam st P -> Forall (belongs fam) (P ++ Q) -> distinct (P ++ Q) -> Inv fam (final_store st Q) (P ++ Q).
+Proof.
+  intros Hwf. induction Q as [|a0 Q' IH]; intros P st HI Hall Hdis; [rewrite app_nil_r; exact HI|].
+  assert (P ++ a0 :: Q' = (P ++ [a0]) ++ Q') as Eapp by (rewrite <- app_assoc; reflexivity).
+  assert (Forall (belongs fam) (P ++ [a0])) as Hall1 by (rewrite Eapp in Hall; apply Forall_app in Hall; tauto).
+  assert (distinct (P ++ [a0])) as Hdis1.
+  { unfold distinct in *. rewrite Eapp, map_app in Hdis. eapply NoDup_app_l; exact Hdis. }
+  destruct (step_Inv fam st P a0 Hwf HI Hall1 Hdis1) as (st' & o & Hput & HI' & _).
+  destruct a0 as [[[r s] tot] t]. cbn [final_store]. cbn [a_ref a_seq a_total a_text fst snd] in Hput. rewrite Hput.
+  rewrite Eapp. apply IH; [exact HI'|rewrite <- Eapp; exact Hall|rewrite <- Eapp; exact Hdis].
+Qed.
+
+(* every message of which a segment has arrived has arrived in full *)
+Definition complete (fam : family) (P : list arrival) : Prop :=
+  forall r, arrived r P = [] \/ exists parts, In (r, parts) fam /\ length (arrived r P) = length parts.
+
+Lemma dget_all_None {V} (d : dict V) : (forall r, dget r d = None) -> d = [].
+Proof.
+  destruct d as [|[k v] t]; intros H; [reflexivity|]. specialize (H k). cbn [dget] in H. rewrite Z.eqb_refl in H. discriminate.
+Qed.
+
+Lemma Inv_complete_empty fam st P : Inv fam st P -> complete fam P -> st = [].
+Proof.
+  intros [_ Hinv] Hc. apply dget_all_None. intros r. specialize (Hinv r). specialize (Hc r).
+  destruct (dget r st) as [d|]; [|reflexivity]. destruct Hinv as (_ & Hne & Hlt).
+  destruct Hc as [He|(parts & Hp & Hl)]; [contradiction|]. specialize (Hlt parts Hp). rewrite Hl in Hlt.
+  exfalso. exact (Nat.lt_irrefl _ Hlt).
+Qed.
+
+(* once every message begun has been completed the store is empty again ... *)
+Theorem store_empty_when_complete fam arr :
+  wf_family fam -> Forall (belongs fam) arr -> distinct arr -> complete fam arr -> final_store [] arr = [].
+Proof.
+  intros Hwf Hall Hdis Hc.
+  exact (Inv_complete_empty fam _ _ (final_Inv fam Hwf arr [] [] (Inv_init fam) Hall Hdis) Hc).
+Qed.
+
+(* ... so whatever arrives afterwards - including new messages under the SAME references - is treated
+   exactly as on a fresh correlator: reassembly_any_order applies to the later stream on its own *)
+Theorem reference_free_after_completion fam arr later :
+  wf_family fam -> Forall (belongs fam) arr -> distinct arr -> complete fam arr ->
+  reassemble [] (arr ++ later) = reassemble [] arr ++ reassemble [] later.
+Proof.
+  intros Hwf Hall Hdis Hc. rewrite reassemble_app, (store_empty_when_complete fam arr Hwf Hall Hdis Hc). reflexivity.
+Qed.
